@@ -6,6 +6,7 @@ import "verif/lib/harness"
 func main() {
 	harness.Main("C13", "exploration",
 		harness.Layer{Name: "ingress", Run: layerIngress},
+		harness.Layer{Name: "directed", Run: layerDirected},
 		harness.Layer{Name: "cluster", Run: layerCluster},
 	)
 }
